@@ -40,6 +40,8 @@ CLAIMS["C16"] = ("Leader: data is sent only under 'follower id = current id' and
 
 CLAIMS["C14"] = ("On every path of the unit dispatcher marker ≺ business commands ≺ recovery record (≺ index) are queued on one transaction batcher before its single Dispatch; every journal deletion is dominated (in the function or at every caller) by a successful frontier save; coordinator and start-up rebuild advance the frontier only while the next sequence number is present, from seq+1 stepping by 1 only after a hit; the in-memory resume point is stored after confirmation from the confirmed values; commits are reported only after reply validation; recovery cleanup is bounded by the frontier; sync-mode start picks the greatest end offset.", "3/C14")
 
+CLAIMS["C13"] = ("Every transaction the tool writes starts with the marker SET on every path and carries every command of the unit; transaction batchers are created only by those writers; bookkeeping keys are built under the reserved prefix and the namespace test checks exactly the reserved prefixes; suppression predicates read key positions only (first argument, all arguments only for DEL/UNLINK) and answer true only under the reserved prefix; on every loop path of the replay-unit parser a decoded command is dropped only for a documented reason; the transaction buffer is fresh at MULTI, dropped after EXEC, append-only, and a mirrored transaction emits nothing.", "3/C13")
+
 NOT_YET = "check not built yet in this revision (planned, see DESIGN.md section 3)"
 
 def main():
